@@ -38,7 +38,7 @@ BOUNDS = {
     "pep440_roundtrip": "6 epochs x 6 releases x ~110 pre-release spellings x 9 post x 5 dev x 8 local spellings x {'', v, V}, thinned to ~155k strings, each with its normal form computed from the fields (not by parsing): accepted, prints the normal form, normal form re-parses to itself and compares equal; 20 strings outside the grammar must be rejected",
     "tag_max_semver": "all pairs and a third of the triples over 20 tag names (spellings, pre-releases, build metadata, a non-version): filter_only_valid_tags keeps exactly the parsable ones; find_max_version_tag returns a valid tag that no other valid tag exceeds under the reference precedence",
     "tag_max_pep440": "all pairs and a third of the triples over 21 tag names (spellings, epochs, pre/post/dev, locals, a non-version): as tag_max_semver with the PEP 440 reference key",
-    "template_functions": "prefix / hash / hash_int / prefix_if / sanitize on 16 values (incl. multi-byte, whitespace-only and whitespace-padded) x lengths {0,1,2,3,7,30}; format_timestamp on 4 instants x 10 formats incl. invalid ones — rendered through the real Tera engine",
+    "template_functions": "prefix / hash / hash_int / prefix_if / sanitize on 16 values (incl. multi-byte, whitespace-only and whitespace-padded) x lengths {0,1,2,3,7,30}; format_timestamp on 4 instants x 10 formats incl. invalid ones; sanitize with every combination of separator {absent, '.', '-'} x lowercase {absent, true, false} x keep_zeros {absent, true, false} x max_length {absent, 6} on 4 values against the custom sanitiser of those arguments, and each of them together with a preset (to be refused) — rendered through the real Tera engine",
 }
 
 
